@@ -1088,22 +1088,33 @@ pub fn handle(st: &mut State, line: &str) -> String {
             // TLDROP: a thread whose own thread-local object - created BEFORE the thread first used the library - decodes and
             // encodes values in its destructor, i.e. while the thread's locals are being torn down
             "TLDROP" => {
+                static DROPS_OK: std::sync::atomic::AtomicUsize = std::sync::atomic::AtomicUsize::new(0);
+                static DROPS_BAD: std::sync::atomic::AtomicUsize = std::sync::atomic::AtomicUsize::new(0);
                 struct Session(bool);
                 impl Drop for Session {
                     fn drop(&mut self) {
-                        let _ = catch_unwind(AssertUnwindSafe(|| {
-                            let mut c = Cursor::new(vec![0x83u8, 0xaa, 0x7e, 0x80, 0, 0, 0, 1]);
-                            let _ = Time::decode_from(&mut c);
+                        let r = catch_unwind(AssertUnwindSafe(|| {
+                            let mut good = true;
+                            let mut c = Cursor::new(vec![0x83u8, 0xaa, 0x7e, 0x80]);
+                            good &= Time::decode_from(&mut c).is_ok();
                             let mut c = Cursor::new(vec![0u8, 0, 0, 9, 0, 0, 0, 1]);
-                            let _ = Unsigned64::decode_from(&mut c);
+                            good &= matches!(Unsigned64::decode_from(&mut c), Ok(v) if v.value() == 0x9_0000_0001);
                             let mut v = Vec::new();
-                            let _ = Unsigned32::new(7).encode_to(&mut v);
-                            let _ = Integer64::new(-7).encode_to(&mut v);
-                            let _ = Float32::new(1.5).encode_to(&mut v);
+                            good &= Unsigned32::new(7).encode_to(&mut v).is_ok();
+                            good &= Integer64::new(-7).encode_to(&mut v).is_ok();
+                            good &= Float32::new(1.5).encode_to(&mut v).is_ok();
+                            good &= v == vec![0u8, 0, 0, 7, 0xff, 0xff, 0xff, 0xff, 0xff, 0xff, 0xff, 0xf9, 0x3f, 0xc0, 0, 0];
+                            good
                         }));
+                        if matches!(r, Ok(true)) {
+                            DROPS_OK.fetch_add(1, std::sync::atomic::Ordering::SeqCst);
+                        } else {
+                            DROPS_BAD.fetch_add(1, std::sync::atomic::Ordering::SeqCst);
+                        }
                     }
                 }
                 thread_local! { static SESSION: Session = Session(true); }
+                let before = DROPS_OK.load(std::sync::atomic::Ordering::SeqCst);
                 for first in [true, false] {
                     let h = std::thread::spawn(move || {
                         if first {
@@ -1120,6 +1131,10 @@ pub fn handle(st: &mut State, line: &str) -> String {
                     if h.join().is_err() {
                         return Ok("TLDROP panicked".into());
                     }
+                }
+                let ok = DROPS_OK.load(std::sync::atomic::Ordering::SeqCst) - before;
+                if DROPS_BAD.load(std::sync::atomic::Ordering::SeqCst) != 0 || ok != 2 {
+                    return Ok(format!("TLDROP values-decoded-or-encoded-during-thread-exit-failed-or-panicked ok={}", ok));
                 }
                 Ok("OK".into())
             }
